@@ -209,6 +209,10 @@ _DRIVER_COPY = None
 DRIVERS = {"C01": ["c01", "c01s"], "C03": ["c01", "c01s"], "C11": ["c11"], "C12": ["c11"]}
 
 
+# additional theorem modules (built and audited with the property): composed results living in their own files
+EXTRA_PROPS = {"C02": ["C02Lex"]}
+
+
 def drivers_of(prop):
     return DRIVERS.get(prop, [prop.lower()])
 
@@ -443,15 +447,21 @@ class Check:
                     outd[-3000:] if not okd else "")
         if okd:
             pin_driver(self.scratch, subs)
-        ok, out = lake_build((f"SSVerif.Props.{self.prop}",) + tuple(extra_targets))
+        ok, out = lake_build((f"SSVerif.Props.{self.prop}",) + tuple(f"SSVerif.Props.{x}" for x in EXTRA_PROPS.get(self.prop, []))
+                             + tuple(extra_targets))
         self.lake_out = out
         self.oblige(f"lake build SSVerif.Props.{self.prop} (+ imports) succeeds", ok, out[-3000:] if not ok else "")
         if not (ok and okd):
             return False
-        hits = grep_forbidden([f"SSVerif.Props.{self.prop}"] + [f"Driver.{x.upper()}" for x in subs])
+        hits = grep_forbidden([f"SSVerif.Props.{self.prop}"] + [f"SSVerif.Props.{x}" for x in EXTRA_PROPS.get(self.prop, [])]
+                              + [f"Driver.{x.upper()}" for x in subs])
         self.oblige("no sorry/admit/axiom/native_decide/bv_decide/implemented_by/unsafe/maxHeartbeats 0 in the modules "
                     "this property's theorems and the driver import", not hits, hits)
         thms, problems = audit_axioms(self.prop)
+        for x in EXTRA_PROPS.get(self.prop, []):
+            t2, p2 = audit_axioms(x)
+            thms.update(t2)
+            problems += p2
         self.theorems = thms
         for t, ax in sorted(thms.items()):
             self.oblige(f"theorem {t} checks; axioms {ax or '[]'} ⊆ {{propext, Classical.choice, Quot.sound}}",
@@ -465,7 +475,7 @@ class Check:
         return all(o[1] for o in self.obligations)
 
     def leanchecker_modules(self):
-        return [f"SSVerif.Props.{self.prop}"]
+        return [f"SSVerif.Props.{self.prop}"] + [f"SSVerif.Props.{x}" for x in EXTRA_PROPS.get(self.prop, [])]
 
     # -- violations --------------------------------------------------------
     def replay_path(self, tag="replay"):
